@@ -3,9 +3,14 @@ package main
 // C17: the decoration registry under concurrency; fails closed.
 //
 // A spec is a list of per-goroutine programs over
-//   reg n d | named n | names | set n | render i
+//   reg n d | named n | names | styles | set n | render i | reset i n | setdec i d
 // (set n = texttable.Wrap(good table) + SetDecorationNamed(n) + Render();
-// render i = Render() again on the i-th table this goroutine made).  Mode
+// render i = Render() again on the i-th table this goroutine made; reset i n =
+// SetDecorationNamed(n) + Render() on that table; setdec i d = SetDecoration(d)
+// + Render() on it; styles = auto.ListStyles()).  Every listing returned by
+// the library is scribbled over after it has been recorded (entries
+// overwritten, appended to within its capacity, reversed): a listing is the
+// caller's own copy and later listings must not notice.  Mode
 // "seq" has one program, run in order; mode "conc" runs the programs
 // concurrently, every operation stamped from one atomic counter before it
 // starts and after it returned (so "a ended before b started" is exactly
@@ -22,12 +27,13 @@ import (
 	"sync"
 	"sync/atomic"
 
+	"go.pennock.tech/tabular/auto"
 	"go.pennock.tech/tabular/texttable"
 	"go.pennock.tech/tabular/texttable/decoration"
 )
 
 type C17Op struct {
-	K string `json:"k"` // reg named names set render
+	K string `json:"k"` // reg named names styles set render reset setdec
 	N string `json:"n,omitempty"`
 	D int    `json:"d,omitempty"`
 	I int    `json:"i,omitempty"`
@@ -67,12 +73,18 @@ func c17Exec(op c17op, tabs *[]*texttable.TextTable) (ev C17Ev) {
 		decoration.RegisterDecorationName(op.name, regPalette[op.D])
 	case "named":
 		ev.Dec = decID(decoration.Named(op.name))
-	case "names":
-		l := decoration.RegisteredDecorationNames()
+	case "names", "styles":
+		var l []string
+		if op.K == "names" {
+			l = decoration.RegisteredDecorationNames()
+		} else {
+			l = auto.ListStyles()
+		}
 		ev.Names = make([]string, len(l))
 		for i, n := range l {
 			ev.Names[i] = qname(n)
 		}
+		scribble(l)
 	case "set":
 		tt := texttable.Wrap(goodTable())
 		_, err := tt.SetDecorationNamed(op.name)
@@ -85,17 +97,48 @@ func c17Exec(op c17op, tabs *[]*texttable.TextTable) (ev C17Ev) {
 			r := renderRes((*tabs)[op.I].Render, outToID)
 			ev.R = &r
 		}
+	case "reset":
+		if op.I >= 0 && op.I < len(*tabs) {
+			tt := (*tabs)[op.I]
+			_, err := tt.SetDecorationNamed(op.name)
+			ev.SetErr = err != nil
+			r := renderRes(tt.Render, outToID)
+			ev.R = &r
+		}
+	case "setdec":
+		if op.I >= 0 && op.I < len(*tabs) {
+			tt := (*tabs)[op.I]
+			tt.SetDecoration(regPalette[op.D])
+			r := renderRes(tt.Render, outToID)
+			ev.R = &r
+		}
 	default:
 		panic("unknown op " + op.K)
 	}
 	return ev
 }
 
+// scribble over a listing the library returned: overwrite, extend within the
+// capacity it came with, reverse
+func scribble(l []string) {
+	for i := range l {
+		l[i] = "\x00scribbled"
+	}
+	if c := cap(l); c > len(l) {
+		l = l[:c]
+		for i := range l {
+			l[i] = "~scribbled-in-spare-capacity"
+		}
+	}
+	l = append(l, "zz-appended", "csv", "csv")
+	sort.Sort(sort.Reverse(sort.StringSlice(l)))
+}
+
 func c17Decode(progs [][]C17Op) [][]c17op {
 	out := make([][]c17op, len(progs))
 	for g, p := range progs {
 		for _, o := range p {
-			if o.K == "reg" && (o.D < 0 || o.D >= len(regPalette)) {
+			if (o.K == "reg" || o.K == "setdec") && (o.D < 0 || o.D >= len(regPalette)) {
 				panic("decoration index out of range")
 			}
 			out[g] = append(out[g], c17op{o, unq(o.N)})
@@ -159,7 +202,7 @@ func c17Worker() {
 	}
 	for _, p := range progs {
 		for _, o := range p {
-			if o.K != "names" && o.K != "render" {
+			if o.K == "reg" || o.K == "named" || o.K == "set" || o.K == "reset" {
 				universe[o.name] = true
 			}
 		}
@@ -225,7 +268,7 @@ func c17Worker() {
 				if !allowed[o.name][ev.Dec] {
 					out.RawBad = fmt.Sprintf("unstamped phase: goroutine %d op %d Named(%q) returned decoration %d, never registered under that name", g, i, o.name, ev.Dec)
 				}
-			case "names":
+			case "names", "styles":
 				if !sort.StringsAreSorted(ev.Names) {
 					// quoted forms sort like the raw ones only for plain ASCII; re-check on raw
 					rawNames := make([]string, len(ev.Names))
@@ -259,10 +302,16 @@ func c17OpCoq(nt *nameTable, o C17Op) string {
 		return "(ONamed " + nt.ref(unq(o.N)) + ")"
 	case "names":
 		return "ONames"
+	case "styles":
+		return "OStyles"
 	case "set":
 		return "(OSet " + nt.ref(unq(o.N)) + ")"
 	case "render":
 		return "(ORender " + cqNat(o.I) + ")"
+	case "reset":
+		return "(OReSet " + cqNat(o.I) + " " + nt.ref(unq(o.N)) + ")"
+	case "setdec":
+		return "(OSetDec " + cqNat(o.I) + " " + cqDec(o.D) + ")"
 	}
 	panic("op")
 }
@@ -273,7 +322,7 @@ func c17ObsCoq(nt *nameTable, ev C17Ev) string {
 		return "VUnit"
 	case "named":
 		return "(VDec " + cqDec(ev.Dec) + ")"
-	case "names":
+	case "names", "styles":
 		var l []string
 		for _, q := range ev.Names {
 			l = append(l, nt.ref(unq(q)))
@@ -281,7 +330,12 @@ func c17ObsCoq(nt *nameTable, ev C17Ev) string {
 		return "(VNames " + cqList(l) + ")"
 	case "set":
 		return "(VSet " + cqBool(ev.SetErr) + " " + ev.R.Coq() + ")"
-	case "render":
+	case "reset":
+		if ev.R == nil {
+			return "VNone"
+		}
+		return "(VSet " + cqBool(ev.SetErr) + " " + ev.R.Coq() + ")"
+	case "render", "setdec":
 		if ev.R == nil {
 			return "VNone"
 		}
@@ -355,7 +409,7 @@ func c17Run(spec json.RawMessage) CaseOut {
 			switch o.K {
 			case "reg":
 				nReg++
-			case "named", "set":
+			case "named", "set", "reset":
 				nRead++
 			}
 		}
@@ -378,6 +432,12 @@ func c17Run(spec json.RawMessage) CaseOut {
 		for _, o := range p {
 			if o.K == "reg" && o.D == 0 {
 				tags = append(tags, "registers-empty-decoration")
+			}
+			if (o.K == "reg" || o.K == "setdec") && o.D >= 10 {
+				tags = append(tags, "decoration-written-field-by-field")
+			}
+			if o.K == "styles" || o.K == "reset" || o.K == "setdec" {
+				tags = append(tags, "op:"+o.K)
 			}
 		}
 	}
@@ -414,18 +474,132 @@ var c17Names = []string{"none", "x", "utf8-light", "y.z", "", "X", "\xff", "zz"}
 func c17RandOp(r *RNG, names []string, decs []int, nsets *int, conc bool) C17Op {
 	k := r.Intn(100)
 	switch {
-	case k < 30:
+	case k < 26:
 		return C17Op{K: "reg", N: qname(pick(r, names)), D: pick(r, decs)}
-	case k < 60:
+	case k < 50:
 		return C17Op{K: "named", N: qname(pick(r, names))}
-	case k < 72:
+	case k < 60:
 		return C17Op{K: "names"}
-	case k < 90 || *nsets == 0:
+	case k < 66:
+		return C17Op{K: "styles"}
+	case k < 78 || *nsets == 0:
 		*nsets++
 		return C17Op{K: "set", N: qname(pick(r, names))}
+	case k < 86:
+		return C17Op{K: "reset", I: r.Intn(*nsets), N: qname(pick(r, names))}
+	case k < 92:
+		return C17Op{K: "setdec", I: r.Intn(*nsets), D: pick(r, decs)}
 	default:
 		return C17Op{K: "render", I: r.Intn(*nsets + 1)} // may be one past the end: no such table
 	}
+}
+
+// every sequence "make a table selected by n0, then L-1 operations on it" over
+// 2 names (one not registered when the sequence starts, one built-in) and 2
+// decorations, many sequences per world: sequence i uses its own fresh unknown
+// name and its own table, so the sequences are independent up to what they
+// register under the built-in name - and the registry grows well past 20 names.
+func c17TableSequences(L, perWorld int, add func(C17Spec)) int {
+	var prog []C17Op
+	inWorld, total, tab := 0, 0, 0
+	flush := func() {
+		if len(prog) > 0 {
+			add(C17Spec{Mode: "seq", Progs: [][]C17Op{prog}})
+		}
+		prog, inWorld, tab = nil, 0, 0
+	}
+	var rec func(seq []C17Op, unknown string)
+	alpha := func(unknown string, k int) []C17Op {
+		return []C17Op{
+			{K: "reset", I: k, N: unknown}, {K: "reset", I: k, N: "none"},
+			{K: "setdec", I: k, D: 7}, {K: "setdec", I: k, D: 10},
+			{K: "reg", N: unknown, D: 7}, {K: "reg", N: unknown, D: 8}, {K: "reg", N: "none", D: 8},
+			{K: "render", I: k},
+		}
+	}
+	emit := func(first string, rest []C17Op, unknown string) {
+		prog = append(prog, C17Op{K: "set", N: first})
+		prog = append(prog, rest...)
+		// leave the built-in as it was for the next sequence
+		prog = append(prog, C17Op{K: "reg", N: "none", D: 2})
+		tab++
+		inWorld++
+		total++
+		if inWorld == perWorld {
+			flush()
+		}
+	}
+	seqNo := 0
+	rec = func(seq []C17Op, unknown string) {
+		if len(seq) == L-1 {
+			for _, first := range []string{unknown, "none"} {
+				// a fresh unknown name and table index per emitted sequence
+				u := fmt.Sprintf("u%d", seqNo)
+				seqNo++
+				var rest []C17Op
+				for _, o := range seq {
+					c := o
+					if c.N == unknown {
+						c.N = u
+					}
+					if c.K != "reg" {
+						c.I = tab
+					}
+					rest = append(rest, c)
+				}
+				f := first
+				if f == unknown {
+					f = u
+				}
+				emit(f, rest, u)
+			}
+			return
+		}
+		for _, o := range alpha(unknown, 0) {
+			rec(append(append([]C17Op{}, seq...), o), unknown)
+		}
+	}
+	rec(nil, "\x00unknown")
+	flush()
+	return total
+}
+
+// worlds that grow: register N names one by one (sorted positions all over the
+// place), and after every registration list through both routes, look a name
+// up, and list again
+func c17GrowthWorld(r *RNG, n int) C17Spec {
+	var p []C17Op
+	var have []string
+	alphabet := "abmnuz-.~0AZ"
+	for i := 0; i < n; i++ {
+		var name string
+		switch {
+		case i%7 == 3:
+			name = pick(r, []string{"csv", "markdown", "zz", "a", "utf8", "none.x", "html"})
+		default:
+			l := 1 + r.Intn(4)
+			b := make([]byte, l)
+			for j := range b {
+				b[j] = alphabet[r.Intn(len(alphabet))]
+			}
+			name = string(b)
+		}
+		have = append(have, name)
+		p = append(p, C17Op{K: "reg", N: qname(name), D: 1 + r.Intn(13)})
+		switch r.Intn(3) {
+		case 0:
+			p = append(p, C17Op{K: "styles"}, C17Op{K: "names"})
+		case 1:
+			p = append(p, C17Op{K: "names"}, C17Op{K: "styles"}, C17Op{K: "styles"}, C17Op{K: "names"})
+		default:
+			p = append(p, C17Op{K: "names"}, C17Op{K: "names"})
+		}
+		if i%3 == 2 {
+			p = append(p, C17Op{K: "named", N: qname(pick(r, have))}, C17Op{K: "set", N: qname(pick(r, have))})
+		}
+	}
+	p = append(p, C17Op{K: "styles"}, C17Op{K: "names"}, C17Op{K: "styles"})
+	return C17Spec{Mode: "seq", Progs: [][]C17Op{p}}
 }
 
 func c17Gen(r *RNG, tier string) []json.RawMessage {
@@ -456,12 +630,26 @@ func c17Gen(r *RNG, tier string) []json.RawMessage {
 		}
 	}
 	rec(nil)
+	// (a2) per-table sequences, exhaustively
+	if tier == "thorough" {
+		c17TableSequences(5, 24, add)
+	} else {
+		c17TableSequences(4, 24, add)
+	}
+	// (a3) growing worlds
+	growth := []int{4, 8, 14, 22, 9, 16}
+	if tier == "thorough" {
+		growth = []int{4, 8, 14, 22, 9, 16, 30, 40, 12, 18, 26, 35, 5, 6, 7, 10, 11, 13}
+	}
+	for _, n := range growth {
+		add(c17GrowthWorld(r, n))
+	}
 	// (b) random sequential histories over more names and the whole palette
 	nseq := 150
 	if tier == "thorough" {
 		nseq = 2000
 	}
-	allDecs := []int{0, 1, 2, 3, 4, 5, 6, 7, 8, 9}
+	allDecs := []int{0, 1, 2, 3, 4, 5, 6, 7, 8, 9, 10, 11, 12, 13}
 	for i := 0; i < nseq; i++ {
 		n := 4 + r.Intn(12)
 		nsets := 0
@@ -484,6 +672,10 @@ func c17Gen(r *RNG, tier string) []json.RawMessage {
 			nops = 1200 / g
 		}
 		names := c17Names[:2+r.Intn(len(c17Names)-1)]
+		if i%3 == 2 {
+			// many names: the registry's listing grows while others list it
+			names = append(append([]string{}, names...), "g0", "g1", "g2", "g3", "g4", "g5", "g6", "g7", "g8", "g9", "ga", "gb", "gc", "gd")
+		}
 		decs := allDecs[r.Intn(2):]
 		var progs [][]C17Op
 		for k := 0; k < g; k++ {
@@ -530,6 +722,20 @@ func c17Shrink(spec json.RawMessage) []json.RawMessage {
 			c2 := clone()
 			c2.Progs[g] = c2.Progs[g][len(p)/2:]
 			out = append(out, mustJSON(c2))
+			// drop one eighth at a time (a failing sequence may straddle the middle)
+			w := len(p) / 8
+			if w < 1 {
+				w = 1
+			}
+			for lo := 0; lo < len(p); lo += w {
+				hi := lo + w
+				if hi > len(p) {
+					hi = len(p)
+				}
+				c3 := clone()
+				c3.Progs[g] = append(append([]C17Op{}, p[:lo]...), p[hi:]...)
+				out = append(out, mustJSON(c3))
+			}
 			continue
 		}
 		for i := range p {
@@ -550,11 +756,15 @@ func init() {
 		CaseFn:   "C17_case",
 		ModelFn:  "C17_model",
 		Rule: "registry worlds, one child process each (the registry is process-global): every sequential history of the enumerated length over " +
-			"{reg n d, named n, set n | n in {none (built-in), x}, d in {a complete decoration, EmptyDecoration}} + names + render 0; random sequential histories " +
-			"(4-15 ops, up to 8 names incl. a built-in, the empty string, a dotted name and a 0xFF byte, the whole palette of 10 decorations); concurrent runs of 4-8 " +
+			"{reg n d, named n, set n | n in {none (built-in), x}, d in {a complete decoration, EmptyDecoration}} + names + render 0; every per-table sequence " +
+			"'select by name, then 3 (thorough 4) of {SetDecorationNamed(unknown|built-in), SetDecoration(complete|field-by-field), Register(unknown,d|d'), Register(built-in,d'), Render}' " +
+			"(24 sequences per world, fresh unknown name and table each); worlds growing to 4-22 (thorough 40) registered names with RegisteredDecorationNames / auto.ListStyles " +
+			"after every registration; random sequential histories (4-15 ops, up to 8 names incl. a built-in, the empty string, a dotted name and a 0xFF byte, a palette of 14 decorations: " +
+			"Empty, the 6 built-ins, 3 Populate()d ones, 4 written field by field without Populate); concurrent runs of 4-8 " +
 			"(thorough 4-16) goroutines x 40-90 (50-250) ops with atomic-counter time stamps, read-back of every name after the join, and an unstamped second pass for the race detector; " +
+			"every listing the library returns is overwritten, extended within its capacity and reversed after it was recorded; " +
 			"the harness is built with -race and a race report in the child is part of the observation; a case is non-trivial when it both registers and reads; distinct = distinct specs",
-		Exhaustive: "all sequential histories of length 3 (thorough: 4) over the 10-operation alphabet above (every shorter history is a prefix of one of them)",
+		Exhaustive: "all sequential histories of length 3 (thorough: 4) over the 10-operation alphabet (every shorter history is a prefix of one of them); all 1,024 (thorough 8,192) per-table sequences of length 4 (5) over the 8-operation table alphabet x 2 first selections",
 		Gen:        c17Gen,
 		Run:        c17Run,
 		Shrink:     c17Shrink,
